@@ -803,22 +803,25 @@ func (vfs *MemFS) Rename(oldpath, newpath string) error {
 		return &os.LinkError{Op: op, Old: oldpath, New: newpath, Err: nErr}
 	}
 
-	avfs.VerifBeforeLock(&oParent.mu, true)
-	oParent.mu.Lock()
-	defer oParent.mu.Unlock()
-
-	if !oParent.checkPermission(avfs.OpenWrite, vfs.User()) {
-		return &os.LinkError{Op: op, Old: oldpath, New: newpath, Err: vfs.err.PermDenied}
+	// Both parent directories are locked, the one nearer to the root first (as every other call locks a
+	// directory before the nodes below it), so that concurrent calls can't wait for each other in a cycle.
+	first, second := oParent, nParent
+	if oL, nL := oPI.Left(), nPI.Left(); len(nL) < len(oL) || (len(nL) == len(oL) && nL < oL) {
+		first, second = nParent, oParent
 	}
 
-	if nParent != oParent {
-		avfs.VerifBeforeLock(&nParent.mu, true)
-		nParent.mu.Lock()
-		defer nParent.mu.Unlock()
+	avfs.VerifBeforeLock(&first.mu, true)
+	first.mu.Lock()
+	defer first.mu.Unlock()
 
-		if !nParent.checkPermission(avfs.OpenWrite, vfs.User()) {
-			return &os.LinkError{Op: op, Old: oldpath, New: newpath, Err: vfs.err.PermDenied}
-		}
+	if second != first {
+		avfs.VerifBeforeLock(&second.mu, true)
+		second.mu.Lock()
+		defer second.mu.Unlock()
+	}
+
+	if !oParent.checkPermission(avfs.OpenWrite, vfs.User()) || !nParent.checkPermission(avfs.OpenWrite, vfs.User()) {
+		return &os.LinkError{Op: op, Old: oldpath, New: newpath, Err: vfs.err.PermDenied}
 	}
 
 	if oPI.Path() == nPI.Path() {
